@@ -431,6 +431,7 @@ func c14Gen(r *hx.Rng, n int, tier string) []string {
 	lines = append(lines, directed2()...)
 	lines = append(lines, directedPrefix5()...)
 	lines = append(lines, directedMlDsaPrivate()...)
+	lines = append(lines, directedComposite()...)
 	// the malformed stream for the table of panic sites (gen6.go); thinned in the quick tier
 	step := 4
 	if tier == "thorough" {
